@@ -261,7 +261,38 @@ fn convert_soup(tape: &[u32], st: &mut Stats) -> CaseResult {
     let case = gen_term_case(&mut t, &cfg_small());
     let (text, origin) = gen_soup(&mut t, &case.table, &case.pool, &case.toks);
     st.class(origin);
-    differential("C03", &text, &case.table, &SOUP_ROUTES, origin, st)
+    differential("C03", &text, &case.table, &SOUP_ROUTES, origin, st)?;
+    // listing invariants that need no tree: strictly ascending, operator_reprs = union
+    let text_ref: &str = &text;
+    let r = guard(|| -> Vec<(&'static str, Vec<String>, Vec<String>, Vec<String>)> {
+        let mut v = vec![];
+        if let Ok(f) = F::parse(text_ref) {
+            v.push(("flat", f.unary_reprs().to_vec(), f.binary_reprs().to_vec(), f.operator_reprs().to_vec()));
+        }
+        if let Ok(d) = D::parse(text_ref) {
+            v.push(("deep", d.unary_reprs().to_vec(), d.binary_reprs().to_vec(), d.operator_reprs().to_vec()));
+        }
+        v
+    });
+    let describe = || json!({"text": text, "table": describe_table(&case.table), "origin": origin});
+    match r {
+        Err(p) => Err(fail("C03/soup/listings/panic", format!("listing operators of `{text}` panics: {p}"), describe())),
+        Ok(ls) => {
+            for (form, un, bin, all) in ls {
+                for l in [&un, &bin, &all] {
+                    if !sorted_strict(l) {
+                        return Err(fail("C03/soup/listings/not-sorted-or-duplicates", format!("`{text}` {form}: listing {l:?} is not strictly ascending"), describe()));
+                    }
+                }
+                let mut u: BTreeSet<String> = un.iter().cloned().collect();
+                u.extend(bin.iter().cloned());
+                if u.into_iter().collect::<Vec<_>>() != all {
+                    return Err(fail("C03/soup/listings/operator-reprs-not-union", format!("`{text}` {form}: operator_reprs {all:?} is not the union of {un:?} and {bin:?}"), describe()));
+                }
+            }
+            Ok(())
+        }
+    }
 }
 
 // ---------------------------------------------------------------------------------------------
